@@ -31,6 +31,7 @@ RULE = (
     ' Round 10: requests and reports for the parked key between parking and wake (enumerated).'
     ' Round 12: `ack` (parked commands carry the ack flag); the application sends an internal command of every type to the sleepers between the failed flush and the retry.'
     ' Round 11: every internal message of the sleeping nodes that is not their wake announcement (e.g. the post-sleep notification) among the `between` events.'
+    ' Round 13: `@tick` (clock jumps between failed flush and retry).'
 )
 ASSUMPTIONS = [
     "faults are raised by the transport's write before anything is recorded (an all-or-nothing write)",
